@@ -4,16 +4,19 @@ reg("C02", "kriging exact / unbiased / linear / invariant (metamorphic)",
          "0-2 external drifts, measurement error, nested rotated anisotropic structures + nugget, unique or moving "
          "neighbourhood, point or rotated-grid targets); relations between library runs: exactness at data points, stdev "
          "finite / >= 0 / <= C(0) with known mean, X^t lambda = x0, drift-shift, linearity in the data, permutation of samples, "
-         "common translation, cross-validation vs leave-one-out kriging; tolerances c eps kappa magnitude with kappa from "
+         "common translation, cross-validation vs leave-one-out kriging, kriging(matLC = A, non-square) == A . kriging of each "
+         "variable and exact at fully informed data (simple cokriging with distinct non-zero known means included); tolerances c eps kappa magnitude with kappa from "
          "the reference solver; targets whose reference condition number exceeds 1e9 or whose neighbourhood changes under "
          "the transformation are skipped; distinct = distinct discrete configurations with a non-skipped evaluation",
     level="exploration",
     require=dict(distinct=300,
                  oracles=dict(quick={"exact-estim": 5000, "linear-estim": 4000, "permute-estim": 4000, "shift-estim": 2500,
                                      "translate-estim": 3000, "unbiased": 15000, "stdev-finite": 4000, "stdev-le-prior": 1100,
-                                     "xvalid-estim": 300},
+                                     "xvalid-estim": 300, "lincomb-estim": 1200, "lincomb-exact-estim": 1000},
                               thorough={"exact-estim": 30000, "linear-estim": 24000, "permute-estim": 24000, "shift-estim": 15000,
                                         "translate-estim": 18000, "unbiased": 90000, "stdev-finite": 24000,
-                                        "stdev-le-prior": 6600, "xvalid-estim": 1800})),
+                                        "stdev-le-prior": 6600, "xvalid-estim": 1800, "lincomb-estim": 7000,
+                                        "lincomb-exact-estim": 6000}),
+                 probes=["h.lincomb-sk", "h.lincomb-sk-exact"]),
     assumptions=["the reference solver (ref_krige.hpp) is used only to size tolerances (condition number, magnitude of sums)",
                  "moving neighbourhoods: continuous random locations, so no distance ties; a changed neighbour set voids the target"])
